@@ -36,14 +36,21 @@ def iflatten(iterable):
     # remainder nests one chain per row, which makes a long column of one-cell
     # rows quadratic and, from a few hundred thousand rows on, overflows the C stack
     stack = [iter(iterable)]
+    # the lists being walked right now, outermost first: one that turns up inside
+    # itself (a host's object graph may be circular) would be walked for ever
+    walking = [id(iterable)]
     while stack:
         for item in stack[-1]:
             if isinstance(item, (list, tuple)):
+                if id(item) in walking:
+                    raise error.REF
                 stack.append(iter(item))
+                walking.append(id(item))
                 break
             yield item
         else:
             stack.pop()
+            walking.pop()
 
 
 def flatten(l):
